@@ -194,7 +194,7 @@ func (n nodeJSON) ToNode() (ast.Node, error) {
 		case consts.Context:
 			return ast.Context(), nil
 		}
-		return ast.Node{}, fmt.Errorf("unknown variable: %v", n.Var)
+		return ast.Node{}, fmt.Errorf("unknown variable: %v", *n.Var)
 
 	// Slot
 	// Unknown
